@@ -322,7 +322,12 @@ PinEffect(env, ps, p, obs) ==
         in == [ms |-> env.ms, cur |-> IF hasEx THEN ex.allocs ELSE <<>>, bl |-> <<>>, prio |-> p.ua,
                rmin |-> rmin, rmax |-> rmax, strat |-> env.strat]
         validAlloc == CASE p.type = "meta" -> n.allocs = <<>>
-                        [] p.allocs # <<>> /\ rmin > 0 -> n.allocs = p.allocs        \* preset by the adder
+                        \* preset by the caller (the adder): kept as they are, or at least treated as the priority list
+                        [] p.allocs # <<>> /\ rmin > 0 ->
+                              \/ n.allocs = p.allocs
+                              \/ Good([in EXCEPT !.prio = p.allocs], [ok |-> TRUE, allocs |-> n.allocs])
+                        \* effective factor -1 (explicit, or unset under a default of -1): the list is empty = every peer,
+                        \* whatever the caller had preset (Good: Everywhere => allocs = <<>>)
                         [] OTHER -> Good(in, [ok |-> TRUE, allocs |-> n.allocs])
         fresh == carries /\ validAlloc
         kept  == Norm(n) = Norm(ex) \/ Norm(n) = Norm([ex EXCEPT !.upd = p.upd])    \* nothing changes, allocations kept
